@@ -18,6 +18,16 @@ from wikitextprocessor.parser import (
 )
 
 ctx = Wtp(quiet=True, quiet_output=True)
+
+
+def reset_begline(c):
+    """representation invariant at a token boundary outside argument re-parsing: beginning-of-line syntax enabled"""
+    c.begline_enabled = True
+    try:
+        c.begline_disable_counter = 0
+    except AttributeError:  # the counter slot may have been refactored away
+        pass
+
 LV = {1: NodeKind.LEVEL1, 2: NodeKind.LEVEL2, 3: NodeKind.LEVEL3, 4: NodeKind.LEVEL4, 5: NodeKind.LEVEL5, 6: NodeKind.LEVEL6}
 MK = "*#"
 
@@ -31,8 +41,7 @@ def build(mask: int, markers):
     ctx.pre_parse = False
     ctx.linenum = 9
     ctx.suppress_special = False
-    ctx.begline_enabled = True
-    ctx.begline_disable_counter = 0
+    reset_begline(ctx)
     for lvl in range(1, 7):
         if mask & (1 << (lvl - 1)):
             n = _parser_push(ctx, LV[lvl])
